@@ -32,8 +32,8 @@ RULE = (
 TOLERANCES = {"everything": "bitwise / exact equality (OpenCV's RNG re-seeded before each colour-correction evaluation)"}
 ASSUMPTIONS = ["files are written to a per-run temporary directory that is removed afterwards", "lossless formats: PNG (8 bit) and TIFF (16 bit), as documented in OpticalImage.write"]
 FLOORS = {
-    "quick": {"npz_roundtrip": 250, "bytes_roundtrip": 150, "optical_write_read": 60, "correction_roundtrip": 150, "estimator_regions_compared": 100},
-    "thorough": {"npz_roundtrip": 3000, "bytes_roundtrip": 1800, "optical_write_read": 700, "correction_roundtrip": 1700, "estimator_regions_compared": 1000},
+    "quick": {"npz_roundtrip": 250, "bytes_roundtrip": 150, "optical_write_read": 60, "correction_roundtrip": 150, "estimator_regions_compared": 100, "correction_path_reused": 200},
+    "thorough": {"npz_roundtrip": 3000, "bytes_roundtrip": 1800, "optical_write_read": 700, "correction_roundtrip": 1700, "estimator_regions_compared": 1000, "correction_path_reused": 2000},
 }
 SHARD_TIMEOUT = {"quick": 1500, "thorough": 7200}
 
@@ -84,7 +84,7 @@ def run_shard(spec, R):
         case = {**desc, "class": cls.__name__, "name": name}
         before = snap(img)
         meta0 = img.metadata()
-        path = tmp / f"im{n}.npz"
+        path = tmp / f"im{n % 3}.npz"  # file names are reused (overwritten) within a shard
         with quiet():
             ok, _ = R.guarded("save", lambda: img.save(path))
         if not ok:
@@ -186,13 +186,29 @@ def run_shard(spec, R):
     regions = []
     wrap(darsia.TranslationEstimator, "match_roi", before=lambda a, k: regions.append(snap({kk: k.get(kk) for kk in ("roi_src", "roi_dst")})))
 
+    reuse_count = {}
+
     def roundtrip(label, corr, fresh_inputs, case, kmeans=False, generations=1):
-        path = tmp / f"corr-{label}-{np.random.randint(1 << 30)}.npz"
+        # file names are reused, as a user overwriting yesterday's file would: every second round trip of a kind of
+        # correction goes through the same path as the one before
+        reuse_count[label] = reuse_count.get(label, 0) + 1
+        path = tmp / (f"corr-{label}.npz" if reuse_count[label] % 2 == 0 or reuse_count[label] % 4 == 1 else f"corr-{label}-{np.random.randint(1 << 30)}.npz")
+        if path.name == f"corr-{label}.npz":
+            R.count("correction_path_reused")
         with quiet():
             ok, _ = R.guarded(f"save:{label}", lambda: corr.save(path))
             if not ok:
                 return
-            ok, back = R.guarded(f"read_correction:{label}", lambda: darsia.read_correction(path))
+            ok, first_read = R.guarded(f"read_correction:{label}", lambda: darsia.read_correction(path))
+            if ok:
+                # the caller modifies what it got; reading the file again must give the stored correction
+                for attr in ("active", "relative_padding"):
+                    if hasattr(first_read, attr):
+                        try:
+                            setattr(first_read, attr, (not getattr(first_read, attr)) if attr == "active" else 0.33)
+                        except Exception:
+                            pass
+                ok, back = R.guarded(f"read_correction:{label}", lambda: darsia.read_correction(path))
             for _g in range(generations - 1):  # saved and reloaded again, from the reloaded object
                 if ok:
                     ok, _ = R.guarded(f"save:{label}", lambda: back.save(path))
